@@ -43,7 +43,7 @@ func (s *sim) tspec(c, t int) *tspec {
 	return nil
 }
 
-func (s *sim) long(c int) bool { return s.cmds[c].tmo == 0 || s.cmds[c].tmo >= longTimeout }
+func (s *sim) long(c int) bool { return s.cmds[c].long || s.cmds[c].tmo == 0 }
 
 func (s *sim) selfDriving(c int) bool {
 	if !s.long(c) {
@@ -218,7 +218,7 @@ func cmdsNode(cmds []cspec) *sx.Node {
 	n := sx.L()
 	for _, cs := range cmds {
 		ms := 0
-		if cs.tmo < longTimeout {
+		if !cs.long && cs.tmo != 0 {
 			ms = int(cs.tmo.Milliseconds())
 		}
 		cn := sx.L(sx.I(cs.q), sx.I(ms))
@@ -399,7 +399,7 @@ func tagsOf(cmds []cspec, s *sim) []string {
 		if len(cs.targets) > maxT {
 			maxT = len(cs.targets)
 		}
-		if cs.tmo != 0 && cs.tmo < longTimeout {
+		if cs.tmo != 0 && !cs.long {
 			short++
 		}
 		for _, ts := range cs.targets {
@@ -449,6 +449,17 @@ func generate(tier string, r *rng.R) []fw.Case {
 			maxCmds, maxT = 2, 3 // small cases: shrink-friendly, dense in corner cases
 		}
 		cs = append(cs, genCase(r.Fork(), maxCmds, maxT))
+	}
+	return cs
+}
+
+// search: the wider stream used only after the correspondence broke without a
+// Spec-violating input yet — many SMALL scenarios (easier to make the real
+// code's deviation show at the callback).
+func search(r *rng.R) []fw.Case {
+	cs := []fw.Case{}
+	for i := 0; i < 2500; i++ {
+		cs = append(cs, genCase(r.Fork(), 3, 4))
 	}
 	return cs
 }
